@@ -113,6 +113,9 @@ class Ctx:
         self._part = "?"
         self._case = None
         self.min_fractions: list[tuple[str, str, float]] = []
+        # long runs accumulate compiled executables (one per new shape); clearing JAX's caches now and then keeps
+        # the JIT's code memory bounded ("LLVM ERROR: Unable to allocate section memory" in two thorough runs)
+        self.clear_caches_every = 0 if tier == "quick" else 1500
         kf = VERIF / "known_findings.json"
         self.known = []
         if kf.exists():
